@@ -124,8 +124,18 @@ func (c13) Gen(r *sim.Rand, tier string, run uint64) *sim.Scenario {
 				edges = append(edges, s, s+size-1)
 				continue
 			}
-			ops = append(ops, sim.Op{K: "attach", N: []int64{int64(r.Intn(ndev)), s, e}})
+			dev := int64(r.Intn(ndev))
+			if r.Chance(1, 15) {
+				dev = -1 // Attach(nil, ...): detaches an aligned range; mis-aligned, it is rejected like any other
+			}
+			ops = append(ops, sim.Op{K: "attach", N: []int64{dev, s, e}})
 			edges = append(edges, s, e)
+			if r.Chance(1, 150) {
+				// a bank-switching mapper: one small window re-attached tens of thousands of times
+				ws := s &^ 0xF
+				ops = append(ops, sim.Op{K: "churn", N: []int64{ws, int64(sim.PickInt(r, 70000, 66000, 131080)), int64(r.Intn(ndev))}})
+				edges = append(edges, ws, ws+15)
+			}
 		case x < 44:
 			ops = append(ops, sim.Op{K: "read", N: []int64{pickAddr()}})
 		case x < 50:
@@ -346,6 +356,37 @@ func (c13) Exec(sc *sim.Scenario, env *sim.Env) *sim.Violation {
 			}
 			aligned := s&0xF == 0 && (e+1)&0xF == 0
 			var aerr error
+			if op.Arg(0) < 0 {
+				// nil memory: what is attached there afterwards is nothing
+				p, pv := sim.RecoverLib(func() { aerr = b.Attach(nil, "", s, e) })
+				env.ObsBool(p)
+				env.ObsBool(aerr != nil)
+				if p {
+					return &sim.Violation{Oracle: "attach_panic", Step: i, Msg: fmt.Sprintf("Attach(nil,%06x,%06x) panicked: %s", s, e, sim.PanicString(pv))}
+				}
+				if aligned != (aerr == nil) {
+					return &sim.Violation{Oracle: "attach_outcome", Step: i, Msg: fmt.Sprintf("Attach(nil,%06x,%06x): aligned=%v but error=%v", s, e, aligned, aerr)}
+				}
+				if aligned {
+					for x := s >> 4; x <= e>>4; x++ {
+						owner[x] = -1
+						useReal[x] = false
+					}
+					st.Probe("attach_nil_detaches")
+				} else {
+					st.Fault("attach_rejected")
+				}
+				nontrivial = true
+				// spot checks just outside and inside
+				for _, a := range []uint32{s, e, (s - 1) & 0xFFFFFF, (e + 1) & 0xFFFFFF, s &^ 0xF, e | 0xF} {
+					if v := spot(a); v != nil {
+						v.Step = i
+						v.Msg = fmt.Sprintf("after Attach(nil,%06x,%06x) (aligned=%v): ", s, e, aligned) + v.Msg
+						return v
+					}
+				}
+				continue
+			}
 			var m memory.Memory = devs[dev]
 			real := reals[dev] != nil && inWindow(dev, s, e)
 			if real {
@@ -382,6 +423,42 @@ func (c13) Exec(sc *sim.Scenario, env *sim.Env) *sim.Violation {
 				st.Fault("attach_rejected")
 				env.FaultYield("op")
 				nontrivial = true
+			}
+		case "churn":
+			ws, n, dv := uint32(op.Arg(0))&0xFFFFF0, int(op.Arg(1)), int(op.Arg(2))
+			if n > 140000 {
+				n = 140000
+			}
+			if dv < 0 || dv >= ndev {
+				dv = 0
+			}
+			var cerr error
+			p, pv := sim.RecoverLib(func() {
+				for k := 0; k < n && cerr == nil; k++ {
+					cerr = b.Attach(devs[(dv+k)%ndev], "bank", ws, ws+15)
+				}
+			})
+			if p || cerr != nil {
+				return &sim.Violation{Oracle: "attach_panic", Step: i, Msg: fmt.Sprintf("re-attaching the window %06x-%06x %d times: panic=%v (%s) err=%v", ws, ws+15, n, p, sim.PanicString(pv), cerr)}
+			}
+			last := int8((dv + n - 1) % ndev)
+			owner[ws>>4] = last
+			useReal[ws>>4] = false
+			st.Probe("attach_churn")
+			nontrivial = true
+			// everything else is where it was: look at the window, its neighbours and the edges seen so far
+			probe := []uint32{ws, ws + 15, (ws - 1) & 0xFFFFFF, (ws + 16) & 0xFFFFFF, 0, 0xFFFFFF, uint32(sc.C("region")) & 0xFFFFFF}
+			for _, o := range sc.Ops[:i] {
+				if o.K == "attach" || o.K == "fork" {
+					probe = append(probe, uint32(o.Arg(1))&0xFFFFFF, uint32(o.Arg(2))&0xFFFFFF)
+				}
+			}
+			for _, a := range probe {
+				if v := spot(a); v != nil {
+					v.Step = i
+					v.Msg = fmt.Sprintf("after %d Attach calls on one bus: ", n) + v.Msg
+					return v
+				}
 			}
 		case "fork":
 			// a copy of the Bus value is a second bus: what is attached to the copy must not
